@@ -17,6 +17,10 @@ CONC_ASSUME = [
 
 
 def c06(tier):
+    # sensitivity self-test of the model: the as-coded policy of the pinned tree (length reset per NextReader call,
+    # the defect repaired by 85a08ab) must violate the history-independence invariant at design level
+    mut = core.expect_violation("MC_C06.tla", "MC_C06_percall.cfg", "C06-mc-percall")
+    core.log("[C06] sensitivity: policy per_call violates %s after %d states (as it must)" % (mut["invariant"], mut["states"]))
     if tier == "quick":
         return reader.run_reader_check("C06", tier, [("MC_C06.tla", "MC_C06_quick.cfg")], mult=1, max_progs=4000,
                                        assumptions=BASE_ASSUME)
